@@ -563,6 +563,10 @@ class Monitor:
         if extra:
             self.bad('C02.invented', f'part ids {sorted(extra)} were never generated ({now})')
         for d in self.devs:
+            if isinstance(d, Buffer):
+                inside = sum(1 for p in holdings(d))
+                if d.level() != inside:
+                    self.bad('C02.buffer-count', f'{d.name} reports {d.level()} part(s) inside but holds {inside} ({now})')
             if isinstance(d, Source):
                 B = self.m.budget[d.name]
                 if d.produced_parts > B:
